@@ -235,13 +235,15 @@ def run_case(case):
             exp = np_blocks(a, chunks, idx_np if len(idx_np) != 1 else idx_np[0])
         else:
             exp = a[idx_np]
+        if "then" in case:
+            exp = exp[gidx.dec(case["then"])]
     except IndexError as e:
         np_raises = e
     except Exception as e:  # other NumPy errors: not a defined case
         raise AssertionError(f"invalid case for NumPy: {type(e).__name__}: {e}")
     full = gidx.enc(slice(None))
     dask_with_others = has_dask_idx and any(not (isinstance(e, dict) and "dask" in e) and e != full for e in case["index"]["tuple"])
-    if nf >= 2 or dask_with_others or (kind == "vindex" and has_dask_idx):
+    if nf >= 2 or dask_with_others or (kind == "vindex" and has_dask_idx) or ("then" in case and has_dask_idx):
         # Two fancy indices, and any dask-array index combined with other
         # elements, are forms dask_array may refuse ("unsupported raises");
         # a value that IS returned must still be NumPy's.
@@ -255,6 +257,10 @@ def run_case(case):
             y = x.blocks[idx_da if len(idx_da) != 1 else idx_da[0]]
         else:
             y = x[idx_da]
+        if "then" in case:
+            if any(isinstance(v, float) and v != v for ax in y.chunks for v in ax):
+                lenient = True  # intermediate has unknown chunk sizes: any refusal is allowed
+            y = y[gidx.dec(case["then"])]
         stage = "compute"
         got = y.compute()
     except NotImplementedError:
@@ -304,6 +310,13 @@ def _gen_fancy(D_, n, allow_dask=True):
     if n == 0 and kind in ("intlist", "intarr", "dask_int", "oob"):
         kind = "empty"
     if kind == "intlist":
+        if D_.chance(1, 3):
+            # np.repeat-like / sorted runs, possibly longer than the axis (take-style indexers)
+            r = D_.int(1, 3)
+            lst = [int(v) for v in np.repeat(np.arange(n), r)]
+            a0 = D_.int(0, max(0, len(lst) - 1))
+            lst = lst[a0 : a0 + D_.int(1, 12)]
+            return gidx.enc(lst), "intlist"
         return gidx.enc(gidx.gen_int_list(D_, n, 1, 6)), "intlist"
     if kind == "intarr":
         return gidx.enc(np.array(gidx.gen_int_list(D_, n, 1, 6), dtype=np.intp)), "intarr"
@@ -457,6 +470,24 @@ def case_strategy(draw):
     return case, labels
 
 
+@st.composite
+def chained_strategy(draw):
+    """case_strategy, plus (for plain getitem, 1 in 4) a second basic index applied to the result:
+    slice pushdown through list indexers / fused slices only shows on chains."""
+    case, labels = draw(case_strategy())
+    if case["kind"] == "getitem" and draw(st.integers(0, 3)) == 0:
+        try:
+            a = data(tuple(case["shape"]), case.get("dtype", "i8"))
+            mid = a[tuple(_dec_pair(e)[0] for e in case["index"]["tuple"])]
+        except Exception:
+            return case, labels
+        if mid.ndim >= 1:
+            then = gidx.gen_basic_index(D(draw), mid.shape, allow_none=False)
+            case = dict(case, then=gidx.enc(then))
+            labels = list(labels) + ["chained"]
+    return case, labels
+
+
 def _index_labels(case):
     labs = []
     for e in case["index"]["tuple"]:
@@ -482,7 +513,7 @@ def run_shard(spec, seed):
 
     @hypothesis.seed(seed)
     @settings(max_examples=spec["cases"], database=None, deadline=None, derandomize=False, phases=[Phase.generate], suppress_health_check=list(HealthCheck))
-    @given(case_strategy())
+    @given(chained_strategy())
     def body(cl):
         case, labels = cl
         fid = excluded(case)
